@@ -53,16 +53,17 @@ TX_INV = [
                       'not contains(ghost.started, unwrap(self._tx_pend_start[i].transfer_id)))', ['C04', 'C18']),
     ('tx_pend_distinct', 'no_dup(self._tx_pend_start)', ['C18']),
     ('tx_started_bound', 'forall(x, "Int", implies(contains(ghost.started, x), x < self._tx_next_id))', ['C04']),
+    ('tx_finished_bound', 'forall(x, "Int", implies(contains(ghost.tx_finished, x), x < self._tx_next_id))', ['C18']),
     ('tx_tmp_item', 'implies(self._tx_tmp is not None, tx_item_ok(self, unwrap(self._tx_tmp)) and '
                     'contains(ghost.started, unwrap(self._tx_tmp.transfer_id)) and '
                     'not in_pend(self, unwrap(self._tx_tmp)) and '
                     'not contains(self._tx_pend_ack, unwrap(self._tx_tmp)))', ['C18']),
     ('tx_ack_items', 'forall(r, "Ref[BundleItem]", implies(contains(self._tx_pend_ack, r), '
                      'tx_item_ok(self, r) and not in_pend(self, r)))', ['C18']),
-    ('tx_map_range', 'forall(k, "Int", implies(contains(self._tx_map, k), '
-                     'eqv(lookup(self._tx_map, k).transfer_id, k) and '
-                     '(in_pend(self, lookup(self._tx_map, k)) or eqv(self._tx_tmp, lookup(self._tx_map, k)) or '
-                     ' contains(self._tx_pend_ack, lookup(self._tx_map, k)))))', ['C18']),
+    # the D-Bus send queue (keys of _tx_map) is exactly: queued and not yet finished
+    ('tx_queue_view', 'dom(self._tx_map) == ghost.tx_live', ['C18']),
+    ('tx_live_unfinished', 'forall(x, "Int", implies(contains(ghost.tx_live, x), not contains(ghost.tx_finished, x)))',
+     ['C18']),
 ]
 
 INVARIANTS = {'ContactHandler': [
@@ -101,10 +102,22 @@ INVARIANTS = {'ContactHandler': [
     ('tx_auto', 'eqv(ghost.cur_xid, ite(self._tx_tmp is None, None, some(unwrap(self._tx_tmp.transfer_id))))',
      ['C04']),
     # --- I4 receive in progress ----------------------------------------------------------
-    ('rx_progress', 'implies(self._rx_tmp is not None, rx_ok(self))', ['C01']),
+    ('rx_progress', 'implies(self._rx_tmp is not None, rx_ok(self) and self._in_sess)', ['C01']),
     ('rx_auto', 'implies(ghost.peer_legal and self._rx_tmp is not None, '
                 'ghost.rx_have_last and ghost.rx_last_id == unwrap(self._rx_tmp.transfer_id) and '
                 'ghost.rx_cum == length(self._rx_tmp.file.content))', ['C04']),
+    # --- the D-Bus receive queue: exactly the ids announced as finished and not yet popped -----------
+    ('rx_queue_view', 'implies(ghost.peer_legal, dom(self._rx_map) == ghost.rx_live)', ['C18']),
+    ('rx_map_in_bundles', 'forall(k, "Int", implies(contains(self._rx_map, k), '
+                          'contains(self._rx_bundles, lookup(self._rx_map, k)) and '
+                          'lookup(self._rx_map, k).file is not None))', ['C18']),
+    ('rx_tmp_not_done', 'implies(self._rx_tmp is not None, not contains(self._rx_bundles, unwrap(self._rx_tmp)))'),
+    # --- numbers kept for the D-Bus parameter view are wire values (unsigned) -------------------------
+    ('sess_params_nonneg', 'forall(k, "Str", implies(union_is(lookup(self._sess_parameters, k), "int"), '
+                           'union_get(lookup(self._sess_parameters, k), "int") >= 0))', ['C18']),
+    ('sessinit_wire_values', 'implies(self._sessinit_peer is not None, self._sessinit_peer.keepalive >= 0 and '
+                             'self._sessinit_peer.segment_mru >= 0 and self._sessinit_peer.transfer_mru >= 0) and '
+                             'implies(self._sessinit_this is not None, self._sessinit_this.keepalive >= 0)'),
     # --- buffers of different transfers are different objects (never merged) ------------------
     ('rx_tx_files_distinct', 'implies(self._rx_tmp is not None and self._tx_tmp is not None, '
                              'not eqv(self._rx_tmp.file, self._tx_tmp.file))', ['C01']),
@@ -150,7 +163,7 @@ FUNCS = {
                                  'eqv(it.total_length, old(it.total_length))))', [])],
     ),
     'tcpcl.session:ContactHandler.is_sess_idle': dict(
-        returns='Bool', props=['C18', 'C09'], handler=True,
+        returns='Bool', props=['C18', 'C09'],
         ensures=[('idle_iff_nothing_pending', 'result == idle_spec(self)')],
     ),
 }
